@@ -1346,7 +1346,15 @@ pub fn c14(c: &Collector, g: &mut Guard) {
     sweep(
         c,
         &bases,
-        |_| with_poison(vec![Op::SaveCursor, Op::RestoreCursor, Op::Feed(vec!["\x1b7".into()], true), Op::Feed(vec!["\x1b8".into()], true), Op::Feed(vec!["\x1b7\x1b[H\x1b[0m\x1b8".into()], true)]),
+        |_| {
+            let mut v = with_poison(vec![Op::SaveCursor, Op::RestoreCursor, Op::Feed(vec!["\x1b7".into()], true), Op::Feed(vec!["\x1b8".into()], true), Op::Feed(vec!["\x1b7\x1b[H\x1b[0m\x1b8".into()], true)]);
+            // unknown escapes whose code point merely ends in the byte of 7 / 8 / c must not touch the stack
+            for ch in ['\u{137}', '\u{138}', '\u{2038}', '\u{ff38}', '\u{1f638}', '\u{163}', '\u{237}', '9', '6'] {
+                v.push(Op::Feed(vec![format!("\x1b{}", ch)], true));
+                v.push(Op::Feed(vec![format!("\x1b7\x1b[H\x1b{}\x1b8", ch)], true));
+            }
+            v
+        },
         |c, t, local| {
             if !t.pre.saves.is_empty() {
                 local.count("restore_with_saved");
